@@ -10,6 +10,11 @@ CHECKS = {
          "All 2^8 (quick) / 2^13 (thorough) subsets of a universe of resource scopes chosen one per branch of scope.go (known/unknown actions incl. one sorting between pull and push, catalog sentinel, empty repository name, opaque word, unknown type, registry:catalog:pull), built by every construction route (NewScope sorted/permuted/duplicated, ParseScope of plain, permuted, comma-joined text, Union results, zero value, unlimited) and all ordered pairs for Union/Contains/Equal; Iter order, early stop, Len, Holds for every universe element, print/parse round trip, receiver text preservation. Exhaustive over the universe.",
          "Strings outside the universe are not explored; the model is a bitmask over the universe.",
          "DESIGN.md 3 C09"),
+ "C17": ("exploration", "E4-enum",
+         "bounded exhaustive enumeration of all strings up to length 6 over an 11-symbol alphabet plus grammar-directed component products, against hand-written recognisers",
+         "Every string of length <= 5 (quick) / <= 6 (thorough) over {a,A,0,.,:,/,@,-,_,[,]} and the product of 17 hosts x 22 repositories x 12 tags x 13 digests (valid and invalid, boundary lengths 128/129, 255/256): no panic from any exported ociref/ociregistry validity function or parser; parse ok => print equals input and each part valid and within its limit; Parse agrees with ParseRelative; every independently valid partition with a host is recovered; predicates equal the independent recogniser on every string incl. empty; routing agreement through ociserver with a recording backend (accepted as repository/tag/digest iff the predicate holds; backend never sees an invalid argument).",
+         "Unstructured inputs are bounded by length and alphabet; longer inputs only via the component sets. Oracle recognisers are hand-written from the grammar in reference.go's comments / the distribution spec.",
+         "DESIGN.md 3 C17"),
  "C20": ("exploration", "E4-enum",
          "bounded exhaustive enumeration of set/unset assignments (all 2^18 in thorough) run against the real Funcs via reflection",
          "Every method x every set/unset assignment of the 18 function fields (thorough: all 262144; quick: none/all/singles/pairs and their complements) x with/without constructor, plus nil receiver; each call checked for no panic, exact delegation of arguments and results, constructor error or ErrUnsupported, single-item error iterators. The space is finite and enumerated completely in thorough.",
